@@ -114,4 +114,97 @@ def runHistory (h : Heap) (ops : List HOp) : Heap := ops.foldl HOp.run h
 /-- the code book a caller collects: `[X.generate(m) for m in ms]` -/
 def Code.genAll (C : Code) (h : Heap) (ms : List Bits) : Heap := runHistory h (ms.map (HOp.gen C))
 
+/-! ### argument checks: calls that are rejected -/
+
+namespace HOp
+
+/-- does the call pass the length assertion of its entry point (`assert len(bits) == …`) -/
+def accepted : HOp → Bool
+  | gen C m => m.length == C.k
+  | check C w => w.length == C.n
+  | cac C w => w.length == C.n
+  | correct C w => w.length == C.n
+  | overwrite _ _ => true
+
+/-- one step as the library runs it: a rejected call raises `AssertionError`, hands out nothing and
+leaves every object as it is -/
+def runE (h : Heap) (op : HOp) : Heap := if op.accepted then op.run h else h
+
+end HOp
+
+/-- a whole history in which calls may be rejected -/
+def runHistoryE (h : Heap) (ops : List HOp) : Heap := ops.foldl HOp.runE h
+
+/-! ### the memory of an ndarray argument
+
+`correct_numpy_array` (and, in practice, `generate`) receive one-dimensional ndarrays: rows and
+columns of the BPTC tables, arrays over foreign buffers (`numpy.frombuffer`), frozen arrays.  What
+the entry points read is `bits.tolist()`: the element values, whatever the memory looks like.  The
+view is modelled as a buffer of octets plus item size, byte order, offset and stride (distance of
+consecutive elements in octets); whether the memory may be written is deliberately *not* part of
+the model: the entry points never write into their ndarray argument (`correct_numpy_array`
+converts to a bitarray and returns a new array), so a read-only argument must give the same result. -/
+
+/-- the view of a one-dimensional ndarray on its buffer -/
+structure NdLayout where
+  /-- `itemsize` in octets -/
+  sz : Nat
+  /-- byte order of one element (`>` = big) -/
+  big : Bool
+  /-- offset of element 0 in the buffer, in octets -/
+  off : Nat
+  /-- `strides[0]`: distance of consecutive elements, in octets -/
+  stride : Nat
+
+/-- the integer an element holds, from its octets -/
+def elemVal (big : Bool) (bs : Bytes) : Nat :=
+  (if big then bs else bs.reverse).foldl (fun acc b => 256 * acc + b) 0
+
+/-- the bit an element stands for; `none`: the element is cut off by the end of the buffer, or its
+value is neither 0 nor 1 (`bitarray(values)` raises) -/
+def elemBit (L : NdLayout) (bs : Bytes) : Option Bool :=
+  if bs.length != L.sz then none else
+  match elemVal L.big bs with
+  | 0 => some false
+  | 1 => some true
+  | _ => none
+
+def ndBitsAux (L : NdLayout) : Nat → Bytes → Option Bits
+  | 0, _ => some []
+  | n + 1, buf =>
+    match elemBit L (buf.take L.sz), ndBitsAux L n (buf.drop L.stride) with
+    | some b, some r => some (b :: r)
+    | _, _ => none
+
+/-- `bits.tolist()` of the view: `n` elements, each `stride` octets after the previous one -/
+def bitsOfNd (L : NdLayout) (buf : Bytes) (n : Nat) : Option Bits := ndBitsAux L n (buf.drop L.off)
+
+/-- the octets of an element holding the bit `b` -/
+def elemBytes (L : NdLayout) (b : Bool) : Bytes :=
+  if L.big then List.replicate (L.sz - 1) 0 ++ [b.toNat] else b.toNat :: List.replicate (L.sz - 1) 0
+
+def ndBody (L : NdLayout) (pad : Nat) : Bits → Bytes
+  | [] => []
+  | b :: w => elemBytes L b ++ (List.replicate (L.stride - L.sz) pad ++ ndBody L pad w)
+
+/-- a buffer on which the view `L` shows the bits `w`: `off` octets, then per element its octets and
+`stride - sz` octets of whatever else lives there (`pad`: other columns of the table, garbage) -/
+def ndOfBits (L : NdLayout) (pad : Nat) (w : Bits) : Bytes := List.replicate L.off pad ++ ndBody L pad w
+
+namespace Code
+
+/-- `generate` applied to an ndarray given by its memory; `none` = the call raises -/
+def genNd (C : Code) (L : NdLayout) (buf : Bytes) (n : Nat) : Option Bits :=
+  if n != C.k then none else (bitsOfNd L buf n).map C.gen
+
+/-- `check` applied to an ndarray given by its memory -/
+def checkNd (C : Code) (L : NdLayout) (buf : Bytes) (n : Nat) : Option Bool :=
+  if n != C.n then none else (bitsOfNd L buf n).map C.check
+
+/-- `correct_numpy_array` applied to an ndarray given by its memory -/
+def correctNd (C : Code) (L : NdLayout) (buf : Bytes) (n : Nat) : Option Bits :=
+  if n != C.n then none else (bitsOfNd L buf n).map C.correct
+
+end Code
+
 end Dmr
